@@ -469,6 +469,7 @@ func (tc *taintCtx) call(fn *ssa.Function, ci ssa.CallInstruction, tainted map[s
 		} else if cc.IsInvoke() {
 			n = cc.Method.Name()
 		}
+		n = strings.SplitN(n, "[", 2)[0] // slices.Clone[[]byte]: the instantiation of a generic function
 		if !freshResult[n] && refishResult(val.Type()) {
 			// only receivers and slice/pointer arguments can be aliased by the result
 			mark(val)
